@@ -1,9 +1,19 @@
 /-
   C04 proofs (function level): what the REGENERATED AuthorizeCodeClient / ValidateAccessTokenRequest /
-  LegacyServer.CodeExchange establish whenever they let a code exchange through.
+  LegacyServer.CodeExchange / AuthorizeCodeChallenge / VerifyCodeChallenge compute.
+
+  Two layers (robustness against harmless rewrites of the Go text):
+    1. per regenerated function ONE characterisation lemma - an equation with a hand-readable spec function
+       (`authorizeCodeClient_eq`, `validateAccessTokenRequest_eq`, `legacyCodeExchange_eq`) or an iff
+       (`authorizeCodeChallenge_iff`, `verifyCodeChallenge_iff`, `validateGrantType_iff`) - proved with the
+       shape-independent tactics `go_leaf` / `go_eq`; these are the only places where a regenerated definition is unfolded;
+    2. everything else (`…_ok`: what a successful validation establishes; used by the history proofs) is proved from the
+       spec functions, which are hand-written and do not move when the Go text is rearranged.
 -/
 import OidcModel.Spec.C04
 import OidcModel.Model.Flow
+import OidcModel.GoTacEq
+set_option linter.unusedSimpArgs false
 namespace C04
 open Go Gen Hand Flow
 
@@ -18,12 +28,116 @@ def Authenticated (now : Int) (p : Provider) (req : AccessTokenRequest) (c : OPC
         (c.auth ≠ Const.AuthMethodPrivateKeyJWT ∧ (c.auth = Const.AuthMethodPost → p.postSupported = true) ∧
           p.store.AuthorizeClientIDSecret req.ClientID req.ClientSecret = .ok ())))
 
-theorem authorizeCodeChallenge_ok {now v ch} (h : AuthorizeCodeChallenge now v ch = .ok ()) :
-    v ≠ "" ∧ VerifyCodeChallenge now ch v = true := by
+/-! ## Layer 1: characterisation lemmas (the only unfoldings of regenerated definitions) -/
+
+/-- PKCE, `oidc.VerifyCodeChallenge`: a challenge exists and equals the verifier - transformed by SHA-256 exactly when the
+    method is `S256`; EVERY other method string (`plain`, the empty string of a request that sent a challenge without
+    `code_challenge_method`, anything else the storage kept) compares the verifier itself -/
+theorem verifyCodeChallenge_iff {now ch v} :
+    VerifyCodeChallenge now ch v = true ↔
+      ∃ c, ch = some c ∧ c.Challenge = (if c.Method = Const.CodeChallengeMethodS256 then NewSHACodeChallenge now v else v) := by
+  unfold VerifyCodeChallenge
+  cases ch <;> simp only [Go.isNil, Go.getOpt, Nilable.isNil, Option.isNone, Option.getD] <;> go_leaf
+
+/-- `AuthorizeCodeChallenge`: a non-empty verifier that verifies -/
+theorem authorizeCodeChallenge_iff {now v ch} :
+    AuthorizeCodeChallenge now v ch = .ok () ↔ v ≠ "" ∧ VerifyCodeChallenge now ch v = true := by
+  unfold AuthorizeCodeChallenge
+  simp only [Go.ok]
+  go_leaf
+
+/-- ... and its two refusals: no verifier - `invalid_request`; a verifier that does not match - `invalid_grant` -/
+theorem authorizeCodeChallenge_err {now v ch e} (h : AuthorizeCodeChallenge now v ch = .error e) :
+    (v = "" ∧ e = "ErrInvalidRequest") ∨ (v ≠ "" ∧ VerifyCodeChallenge now ch v = false ∧ e = "ErrInvalidGrant") := by
   unfold AuthorizeCodeChallenge at h
-  split at h; · simp at h
-  split at h; · simp at h
-  simp_all
+  simp only [Go.ok] at h
+  revert h
+  go_leaf
+
+theorem validateGrantType_iff {now c g} : ValidateGrantType now c g = true ↔ g ∈ c.grants := by
+  unfold ValidateGrantType
+  simp only [Go.any, OPClient.GrantTypes, Go.isNil]
+  go_leaf [Nilable.isNil]
+
+theorem validateGrantType_eq {now c g} : ValidateGrantType now c g = decide (g ∈ c.grants) := by
+  have h := validateGrantType_iff (now := now) (c := c) (g := g)
+  cases hv : ValidateGrantType now c g <;> simp_all
+
+/-- client authentication of the code grant on the Provider router, as a readable function (`hasChallenge`: the
+    authorization request carried a PKCE challenge) -/
+def authClientSpec (now : Int) (req : AccessTokenRequest) (p : Provider) (hasChallenge : Bool) : Go.R OPClient :=
+  if req.ClientAssertionType = Const.ClientAssertionTypeJWTAssertion then
+    if p.is_JWTAuthorizationGrantExchanger = true ∧ p.pkjwtSupported = true then AuthorizePrivateJWTKey now req.ClientAssertion p
+    else .error "ErrInvalidClient"
+  else
+    match p.store.GetClientByClientID req.ClientID with
+    | .error _ => .error "ErrInvalidClient"
+    | .ok c =>
+      if c.auth = Const.AuthMethodPrivateKeyJWT then .error "ErrInvalidClient"
+      else if c.auth = Const.AuthMethodNone then (if hasChallenge then .ok c else .error "ErrInvalidRequest")
+      else if c.auth = Const.AuthMethodPost ∧ p.postSupported = false then .error "ErrInvalidClient"
+      else match p.store.AuthorizeClientIDSecret req.ClientID req.ClientSecret with
+        | .error _ => .error "ErrInvalidClient"
+        | .ok _ => .ok c
+
+/-- `AuthorizeCodeClient`, as a readable function: the code resolves; PKCE is verified whenever the request carried a
+    challenge - BEFORE and independently of how the client authenticates; then the client authenticates -/
+def authorizeCodeClientSpec (now : Int) (req : AccessTokenRequest) (p : Provider) : Go.R (AuthReq × OPClient) :=
+  match p.store.AuthRequestByCode req.Code with
+  | .error _ => .error "ErrInvalidGrant"
+  | .ok a =>
+    match (if a.challenge.isSome then AuthorizeCodeChallenge now req.CodeVerifier a.challenge else .ok ()) with
+    | .error e => .error e
+    | .ok _ =>
+      match authClientSpec now req p a.challenge.isSome with
+      | .error e => .error e
+      | .ok c => .ok (a, c)
+
+theorem authorizeCodeClient_eq {now req p} : AuthorizeCodeClient now req p = authorizeCodeClientSpec now req p := by
+  unfold AuthorizeCodeClient authorizeCodeClientSpec authClientSpec
+  simp only [AuthRequestByCode, AuthorizeClientIDSecret, Provider.Storage, AuthReq.GetCodeChallenge,
+    Provider.AuthMethodPrivateKeyJWTSupported, Provider.AuthMethodPostSupported, OPClient.AuthMethod, Go.notNil, Go.isNil, Go.ok]
+  go_eq [Nilable.isNil, Const.AuthMethodNone, Const.AuthMethodPrivateKeyJWT, Const.AuthMethodPost]
+
+/-- `ValidateAccessTokenRequest`, as a readable function -/
+def validateAccessTokenRequestSpec (now : Int) (req : AccessTokenRequest) (p : Provider) : Go.R (AuthReq × OPClient) :=
+  match AuthorizeCodeClient now req p with
+  | .error e => .error e
+  | .ok (a, c) =>
+    if c.id ≠ a.clientID then .error "ErrInvalidGrant"
+    else if Const.GrantTypeCode ∉ c.grants then .error "ErrUnauthorizedClient"
+    else if req.RedirectURI ≠ a.redirectURI then .error "ErrInvalidGrant"
+    else .ok (a, c)
+
+theorem validateAccessTokenRequest_eq {now req p} : ValidateAccessTokenRequest now req p = validateAccessTokenRequestSpec now req p := by
+  unfold ValidateAccessTokenRequest validateAccessTokenRequestSpec
+  simp only [OPClient.GetID, AuthReq.GetClientID, AuthReq.GetRedirectURI]
+  go_eq [validateGrantType_eq]
+
+/-- `LegacyServer.CodeExchange` (the client was authenticated by `withClient` before), as a readable function -/
+def legacyCodeExchangeSpec (now : Int) (s : LegacyServer) (r : ClientRequest AccessTokenRequest) : Go.R IssueFor :=
+  match s.provider.store.AuthRequestByCode r.Data.Code with
+  | .error _ => .error "ErrInvalidGrant"
+  | .ok a =>
+    if r.Client.id ≠ a.clientID then .error "ErrInvalidGrant"
+    else
+      match (if r.Client.auth = Const.AuthMethodNone ∨ a.challenge.isSome ∨ r.Data.CodeVerifier ≠ ""
+             then AuthorizeCodeChallenge now r.Data.CodeVerifier a.challenge else .ok ()) with
+      | .error e => .error e
+      | .ok _ =>
+        if r.Data.RedirectURI ≠ a.redirectURI then .error "ErrInvalidGrant"
+        else .ok (.code a r.Client r.Data.Code)
+
+theorem legacyCodeExchange_eq {now s r} : LegacyCodeExchange now s r = legacyCodeExchangeSpec now s r := by
+  unfold LegacyCodeExchange legacyCodeExchangeSpec
+  simp only [AuthRequestByCode, issueForCode, NewResponse, Provider.Storage, OPClient.GetID, AuthReq.GetClientID,
+    AuthReq.GetRedirectURI, AuthReq.GetCodeChallenge, OPClient.AuthMethod, Go.notNil, Go.isNil]
+  go_eq [Nilable.isNil]
+
+/-! ## Layer 2: consequences, proved from the spec functions only -/
+
+theorem authorizeCodeChallenge_ok {now v ch} (h : AuthorizeCodeChallenge now v ch = .ok ()) :
+    v ≠ "" ∧ VerifyCodeChallenge now ch v = true := authorizeCodeChallenge_iff.1 h
 
 theorem isNil_eq_not {α : Type} (x : Option α) : Go.isNil x = !Go.notNil x := by
   cases x <;> rfl
@@ -54,37 +168,81 @@ theorem match_pkjwt {now : Int} {p : Provider} {t : Token} {c : OPClient}
   · simp at h; subst h; exact ⟨j, hj, hc, by assumption⟩
   · simp at h
 
+/-- `AuthorizePrivateJWTKey`: the assertion verifies, its issuer is a registered client, and that client's method is
+    private_key_jwt -/
+theorem authorizePrivateJWTKey_ok {now : Int} {t : Token} {p : Provider} {c : OPClient} (h : AuthorizePrivateJWTKey now t p = .ok c) :
+    ∃ j, VerifyJWTAssertion now t p.JWTProfileVerifier = .ok j ∧ p.store.GetClientByClientID j.iss = .ok c ∧ c.auth = Const.AuthMethodPrivateKeyJWT := by
+  unfold AuthorizePrivateJWTKey at h
+  simp only [Provider.Storage, OPClient.AuthMethod, Claims.Issuer] at h
+  revert h
+  go_leaf
+
+theorem authClientSpec_ok {now req p hc c} (h : authClientSpec now req p hc = .ok c) :
+    Authenticated now p req c ∧ (c.auth = Const.AuthMethodNone → hc = true) := by
+  unfold authClientSpec at h
+  by_cases hty : req.ClientAssertionType = Const.ClientAssertionTypeJWTAssertion
+  · simp only [hty, if_true] at h
+    split at h
+    · rename_i hcfg
+      obtain ⟨j, hj, hget, hauth⟩ := authorizePrivateJWTKey_ok h
+      refine ⟨Or.inl ⟨hty, hcfg.2, hcfg.1, j, hj, hget, hauth⟩, ?_⟩
+      intro hn; rw [hn] at hauth; exact absurd hauth (by decide)
+    · simp at h
+  · simp only [hty, if_false] at h
+    split at h
+    · simp at h
+    · rename_i c' hget
+      split at h
+      · simp at h
+      · rename_i hnpk
+        split at h
+        · rename_i hnone
+          split at h
+          · rename_i hch
+            simp only [Except.ok.injEq] at h; subst h
+            exact ⟨Or.inr ⟨hty, hget, Or.inl hnone⟩, fun _ => hch⟩
+          · simp at h
+        · rename_i hnn
+          split at h
+          · simp at h
+          · rename_i hpost
+            split at h
+            · simp at h
+            · rename_i u hsec
+              simp only [Except.ok.injEq] at h; subst h
+              refine ⟨Or.inr ⟨hty, hget, Or.inr ⟨hnpk, ?_, by cases u; exact hsec⟩⟩, fun hn => absurd hn hnn⟩
+              intro hp
+              cases hps : p.postSupported
+              · exact absurd ⟨hp, hps⟩ hpost
+              · rfl
+
 theorem authorizeCodeClient_ok {now req p a c} (h : AuthorizeCodeClient now req p = .ok (a, c)) :
     p.store.AuthRequestByCode req.Code = .ok a ∧
     (a.challenge ≠ none → req.CodeVerifier ≠ "" ∧ VerifyCodeChallenge now a.challenge req.CodeVerifier = true) ∧
     (c.auth = Const.AuthMethodNone → a.challenge ≠ none) ∧
     Authenticated now p req c := by
-  unfold AuthorizeCodeClient AuthRequestByCode AuthorizePrivateJWTKey AuthorizeClientIDSecret at h
-  simp only [Provider.Storage, AuthReq.GetCodeChallenge, Provider.AuthMethodPrivateKeyJWTSupported,
-    Provider.AuthMethodPostSupported, OPClient.AuthMethod, Claims.Issuer, isNil_eq_not] at h
-  repeat' (split at h <;> try (simp at h))
-  all_goals (
-    have hauth : Authenticated now p req c := by
-      rw [← h.2]
-      unfold Authenticated
-      first
-        | (left; exact ⟨by assumption, by simp_all, by simp_all, match_pkjwt (by assumption)⟩)
-        | (right; refine ⟨by assumption, by assumption, ?_⟩; first | (left; assumption) | (right; exact ⟨by assumption, by simp_all, match_secret (by assumption)⟩))
-    obtain ⟨rfl, rfl⟩ := h
-    refine ⟨match_arbc (by assumption), ?_, ?_, hauth⟩
-    · intro hne
-      first
-        | exact authorizeCodeChallenge_ok (by assumption)
-        | (exfalso; simp_all [Go.notNil, Nilable.isNil])
-    · intro hnone
-      rcases hauth with ⟨_, _, _, _, _, _, hpk⟩ | _
-      · rw [hnone] at hpk; exact absurd hpk (by decide)
-      · simp_all [Go.notNil, Nilable.isNil, Const.AuthMethodNone, Const.AuthMethodPrivateKeyJWT]
-        try (intro hc; simp_all))
-
-theorem validateGrantType_iff {now c g} : ValidateGrantType now c g = true ↔ g ∈ c.grants := by
-  unfold ValidateGrantType Go.any OPClient.GrantTypes
-  simp [Go.isNil, Nilable.isNil]
+  rw [authorizeCodeClient_eq] at h
+  unfold authorizeCodeClientSpec at h
+  split at h
+  · simp at h
+  · rename_i a' hcode
+    split at h
+    · simp at h
+    · rename_i u hpk
+      split at h
+      · simp at h
+      · rename_i c' hcl
+        simp only [Except.ok.injEq, Prod.mk.injEq] at h
+        obtain ⟨rfl, rfl⟩ := h
+        obtain ⟨hauth, hnone⟩ := authClientSpec_ok hcl
+        refine ⟨hcode, ?_, ?_, hauth⟩
+        · intro hne
+          have hs : a'.challenge.isSome = true := by cases hch : a'.challenge <;> simp_all
+          simp only [hs, if_true] at hpk
+          cases u; exact authorizeCodeChallenge_iff.1 hpk
+        · intro hn hch
+          have := hnone hn
+          simp [hch] at this
 
 /-- what a successful validation of a code-grant request establishes (Provider router) -/
 theorem validateAccessTokenRequest_ok {now req p a c} (h : ValidateAccessTokenRequest now req p = .ok (a, c)) :
@@ -92,20 +250,21 @@ theorem validateAccessTokenRequest_ok {now req p a c} (h : ValidateAccessTokenRe
     req.RedirectURI = a.redirectURI ∧
     (a.challenge ≠ none → req.CodeVerifier ≠ "" ∧ VerifyCodeChallenge now a.challenge req.CodeVerifier = true) ∧
     (c.auth = Const.AuthMethodNone → a.challenge ≠ none) ∧ Authenticated now p req c := by
-  unfold ValidateAccessTokenRequest at h
-  split at h; · simp at h
-  rename_i a' c' hacc
-  simp only [OPClient.GetID, AuthReq.GetClientID, AuthReq.GetRedirectURI] at h
-  by_cases hid : (c'.id != a'.clientID) = true
-  · simp [hid] at h
-  by_cases hgrant : (!ValidateGrantType now c' Const.GrantTypeCode) = true
-  · simp [hid, hgrant] at h
-  by_cases hred : (req.RedirectURI != a'.redirectURI) = true
-  · simp [hid, hgrant, hred] at h
-  simp [hid, hgrant, hred] at h
-  obtain ⟨rfl, rfl⟩ := h
-  obtain ⟨h1, h2, h3, h4⟩ := authorizeCodeClient_ok hacc
-  exact ⟨h1, by simpa using hid, validateGrantType_iff.1 (by simpa using hgrant), by simpa using hred, h2, h3, h4⟩
+  rw [validateAccessTokenRequest_eq] at h
+  unfold validateAccessTokenRequestSpec at h
+  split at h
+  · simp at h
+  · rename_i a' c' hacc
+    split at h; · simp at h
+    rename_i hid
+    split at h; · simp at h
+    rename_i hgrant
+    split at h; · simp at h
+    rename_i hred
+    simp only [Except.ok.injEq, Prod.mk.injEq] at h
+    obtain ⟨rfl, rfl⟩ := h
+    obtain ⟨h1, h2, h3, h4⟩ := authorizeCodeClient_ok hacc
+    exact ⟨h1, by simpa using hid, by simpa using hgrant, by simpa using hred, h2, h3, h4⟩
 
 /-- the same for the LegacyServer's own code-exchange path (client already verified by withClient) -/
 theorem legacyCodeExchange_ok {now s r i} (h : LegacyCodeExchange now s r = .ok i) :
@@ -113,21 +272,136 @@ theorem legacyCodeExchange_ok {now s r i} (h : LegacyCodeExchange now s r = .ok 
       r.Client.id = a.clientID ∧ r.Data.RedirectURI = a.redirectURI ∧
       (a.challenge ≠ none → r.Data.CodeVerifier ≠ "" ∧ VerifyCodeChallenge now a.challenge r.Data.CodeVerifier = true) ∧
       (r.Client.auth = Const.AuthMethodNone → a.challenge ≠ none) := by
-  unfold LegacyCodeExchange AuthRequestByCode issueForCode NewResponse at h
-  simp only [Provider.Storage, OPClient.GetID, AuthReq.GetClientID, AuthReq.GetRedirectURI, AuthReq.GetCodeChallenge,
-    OPClient.AuthMethod] at h
-  repeat' (split at h <;> try (simp at h))
-  all_goals (
-    subst h
-    refine ⟨_, rfl, match_arbc (by assumption), by simp_all, by simp_all, ?_, ?_⟩
-    · intro hne
-      first
-        | exact authorizeCodeChallenge_ok (by assumption)
-        | (exfalso; simp_all [Go.notNil, Nilable.isNil])
-    · intro hnone
-      simp_all [Go.notNil, Nilable.isNil]
-      try (intro hc; simp_all [AuthorizeCodeChallenge, VerifyCodeChallenge, Go.isNil, Nilable.isNil])
-      try (rename_i hch _ ; first | (split at hch <;> simp at hch) | skip)
-      try (rename_i hch ; first | (split at hch <;> simp at hch) | skip))
+  rw [legacyCodeExchange_eq] at h
+  unfold legacyCodeExchangeSpec at h
+  split at h
+  · simp at h
+  · rename_i a hcode
+    split at h; · simp at h
+    rename_i hid
+    split at h
+    · simp at h
+    · rename_i u hpk
+      split at h; · simp at h
+      rename_i hred
+      simp only [Except.ok.injEq] at h
+      refine ⟨a, h.symm, hcode, by simpa using hid, by simpa using hred, ?_, ?_⟩
+      · intro hne
+        have hs : a.challenge.isSome = true := by cases hch : a.challenge <;> simp_all
+        simp only [hs, true_or, or_true, if_true] at hpk
+        cases u; exact authorizeCodeChallenge_iff.1 hpk
+      · intro hn hch
+        simp only [hn, true_or, if_true] at hpk
+        cases u
+        have := (authorizeCodeChallenge_iff.1 hpk).2
+        rw [hch] at this
+        obtain ⟨c, hc, _⟩ := verifyCodeChallenge_iff.1 this
+        simp at hc
+
+/-! ## Completeness and the refusals (from the spec functions): nothing but the listed conditions is demanded -/
+
+/-- Provider router, completeness: a code that resolves, a caller that authenticates as the request's client (registered for
+    the code grant), the request's redirect_uri byte for byte, and - iff the request carried a challenge - a non-empty
+    verifier that verifies: the exchange is let through, for exactly this request and client -/
+theorem validateAccessTokenRequest_complete {now req p a c}
+    (hcode : p.store.AuthRequestByCode req.Code = .ok a)
+    (hpk : a.challenge = none ∨ (req.CodeVerifier ≠ "" ∧ VerifyCodeChallenge now a.challenge req.CodeVerifier = true))
+    (hcl : authClientSpec now req p a.challenge.isSome = .ok c)
+    (hid : c.id = a.clientID) (hgrant : Const.GrantTypeCode ∈ c.grants) (hred : req.RedirectURI = a.redirectURI) :
+    ValidateAccessTokenRequest now req p = .ok (a, c) := by
+  have hacc : AuthorizeCodeClient now req p = .ok (a, c) := by
+    rw [authorizeCodeClient_eq]
+    unfold authorizeCodeClientSpec
+    rw [hcode]
+    simp only []
+    rcases hpk with hnone | ⟨hv, hver⟩
+    · simp [hnone] at hcl ⊢
+      rw [hcl]
+    · have hs : a.challenge.isSome = true := by
+        obtain ⟨c', hc', _⟩ := verifyCodeChallenge_iff.1 hver
+        simp [hc']
+      rw [hs] at hcl
+      simp only [hs, if_true, authorizeCodeChallenge_iff.2 ⟨hv, hver⟩, hcl]
+  rw [validateAccessTokenRequest_eq]
+  unfold validateAccessTokenRequestSpec
+  rw [hacc]
+  simp [hid, hgrant, hred]
+
+/-- redirect_uri is compared as a string, byte for byte: ANY other string (a trailing slash, another case of scheme or host,
+    a percent-encoded spelling of the same path, an added query) in the token request refuses the exchange with
+    `invalid_grant` - on the Provider router ... -/
+theorem validateAccessTokenRequest_redirect_exact {now req p a c} (hacc : AuthorizeCodeClient now req p = .ok (a, c))
+    (hid : c.id = a.clientID) (hgrant : Const.GrantTypeCode ∈ c.grants) (hred : req.RedirectURI ≠ a.redirectURI) :
+    ValidateAccessTokenRequest now req p = .error "ErrInvalidGrant" := by
+  rw [validateAccessTokenRequest_eq]
+  unfold validateAccessTokenRequestSpec
+  rw [hacc]
+  simp [hid, hgrant, hred]
+
+/-- ... and on the Server router -/
+theorem legacyCodeExchange_redirect_exact {now s r a} (hcode : s.provider.store.AuthRequestByCode r.Data.Code = .ok a)
+    (hred : r.Data.RedirectURI ≠ a.redirectURI) : ∃ e, LegacyCodeExchange now s r = .error e := by
+  rw [legacyCodeExchange_eq]
+  unfold legacyCodeExchangeSpec
+  rw [hcode]
+  simp only [hred]
+  split
+  · exact ⟨_, rfl⟩
+  · split
+    · exact ⟨_, rfl⟩
+    · simp
+
+example : ("https://rp.example/cb/" : String) ≠ "https://rp.example/cb" ∧ ("HTTPS://rp.example/cb" : String) ≠ "https://rp.example/cb" ∧
+    ("https://rp.example/c%62" : String) ≠ "https://rp.example/cb" ∧ ("https://RP.example/cb" : String) ≠ "https://rp.example/cb" := by decide
+
+/-! ## PKCE edge cases, from `verifyCodeChallenge_iff` -/
+
+/-- a `plain` challenge - or a challenge whose method is the empty string (request sent `code_challenge` without
+    `code_challenge_method`) or any string other than `S256` - is verified by the verifier itself -/
+theorem pkce_plain {now : Int} {ch : CodeChallenge} {v : String} (hm : ch.Method ≠ Const.CodeChallengeMethodS256) :
+    VerifyCodeChallenge now (some ch) v = true ↔ ch.Challenge = v := by
+  rw [verifyCodeChallenge_iff]
+  constructor
+  · rintro ⟨c, hc, h⟩
+    cases hc
+    simpa [hm] using h
+  · intro h
+    exact ⟨ch, rfl, by simp [hm, h]⟩
+
+/-- an `S256` challenge is verified by exactly the verifiers whose SHA-256 transform it is (symbolic hash: injective) -/
+theorem pkce_s256 {now : Int} {ch : CodeChallenge} {v : String} (hm : ch.Method = Const.CodeChallengeMethodS256) :
+    VerifyCodeChallenge now (some ch) v = true ↔ ch.Challenge = NewSHACodeChallenge now v := by
+  rw [verifyCodeChallenge_iff]
+  constructor
+  · rintro ⟨c, hc, h⟩
+    cases hc
+    simpa [hm] using h
+  · intro h
+    exact ⟨ch, rfl, by simp [hm, h]⟩
+
+/-- no length or character-set rule is applied to the verifier: whatever non-empty string matches is accepted; the EMPTY
+    verifier never is, even against an empty `plain` challenge -/
+theorem pkce_empty_verifier {now : Int} {ch : Option CodeChallenge} : AuthorizeCodeChallenge now "" ch = .error "ErrInvalidRequest" := by
+  cases h : AuthorizeCodeChallenge now "" ch with
+  | ok u => cases u; exact absurd rfl (authorizeCodeChallenge_iff.1 h).1
+  | error e =>
+    rcases authorizeCodeChallenge_err h with ⟨_, he⟩ | ⟨hne, _⟩
+    · rw [he]
+    · exact absurd rfl hne
+
+/-- a request WITHOUT a challenge: any verifier sent along is refused on the Server router (`invalid_grant`: there is nothing
+    it could match), and ignored on the Provider router (`authorizeCodeClientSpec`: PKCE is only looked at when the request
+    carried a challenge) - the two routers differ here, neither hands out tokens the property forbids -/
+theorem pkce_no_challenge {now : Int} {v : String} : VerifyCodeChallenge now none v = false := by
+  cases h : VerifyCodeChallenge now none v
+  · rfl
+  · obtain ⟨c, hc, _⟩ := verifyCodeChallenge_iff.1 h
+    cases hc
+
+example : VerifyCodeChallenge 0 (some { Challenge := "v", Method := "" }) "v" = true := by decide
+example : VerifyCodeChallenge 0 (some { Challenge := "v", Method := "plain" }) "V" = false := by decide
+example : VerifyCodeChallenge 0 (some { Challenge := "S256(v)", Method := "S256" }) "v" = true := by decide
+example : VerifyCodeChallenge 0 (some { Challenge := "S256(v)", Method := "s256" }) "v" = false := by decide
+example : AuthorizeCodeChallenge 0 "" (some { Challenge := "", Method := "plain" }) = .error "ErrInvalidRequest" := pkce_empty_verifier
 
 end C04
